@@ -107,7 +107,7 @@ def judge_pair(schema, i, version, base, derived, status, acc=None):
 
 def wild_variants(model):
     for i in range(len(M.leaves(model))):
-        for w in ('~any', '~tns', '~other'):
+        for w in ('~any', '~tns', '~other', '~notT'):
             yield M.replace_leaf(model, i, lambda o, w=w: M.wild(w, o[1], o[2]))
 
 
@@ -151,7 +151,11 @@ def run_shard(shard, acc):
             seen.add(bs)
             if sliced and not in_slice(version + bs, seed, SLICES):
                 continue
+            if version == '1.0' and '~not' in bs:
+                continue                      # notNamespace is XSD 1.1 only
             for ename, derived in edits.single_edits(base):
+                if version == '1.0' and '~not' in M.show(derived):
+                    continue
                 batch.append((ename, base, derived))
                 if len(batch) >= PACK:
                     flush()
